@@ -15,8 +15,21 @@ def main():
     seed = int(os.environ.get("VERIF_SEED", "0") or 0)
     from . import runner
 
+    prop = a.prop.upper()
     if a.replay:
+        import json
+
+        with open(a.replay) as f:
+            world = json.load(f).get("world", "pool")
+        if world == "ctl":
+            from ctl import run as ctlrun
+
+            sys.exit(ctlrun.run_replay(a.replay))
         sys.exit(runner.run_replay(a.replay))
+    if prop in ("C16", "C17", "C18", "C19"):
+        from ctl import run as ctlrun
+
+        sys.exit(ctlrun.run_property(prop, a.tier, seed))
     sys.exit(runner.run_property(a.prop.upper(), a.tier, seed, jobs=a.jobs, only=a.only, budget=a.budget))
 
 
